@@ -267,7 +267,10 @@ func (m *tsManager) SendTargetMsg(channelName string, msg *api.ReplicateMsg) {
 	ts, ok := m.channelTS2.Get(channelName)
 	m.channelTSLocks.RUnlock(channelName)
 	if !ok {
-		log.Panic("send target msg failed", zap.String("channelName", channelName))
+		// the channel info has been cleared: the handlers of the channel were stopped (pause / delete of the last task
+		// of the target) while this pack was in flight. The pack of a stopped task is dropped, its checkpoint does not
+		// move, so it is read again when the task is resumed; the service must not die for it.
+		log.Warn("send target msg failed, the channel has been cleared", zap.String("channelName", channelName))
 		return
 	}
 	// do not hold the channel key lock while blocked on a full buffer: a pending writer (CollectTS of another
